@@ -30,8 +30,8 @@ from bacpypes.vlan import Network, Node
 from bacpypes.netservice import RouterInfoCache, NetworkServiceAccessPoint, NetworkServiceElement
 
 # ---- rendering of abstract values (trusted base: two dictionaries and their inverses) -------------------------
-SN = {1: 101, 2: 102}                    # abstract source network -> BACnet network number
-DN = {1: 11, 2: 12, 3: 13, 4: 14}        # abstract destination network -> network number
+SN = {1: 101, 2: 33002}                  # abstract source network -> BACnet network number
+DN = {1: 11, 2: 40000, 3: 13, 4: 65534}  # abstract destination network -> network number (two of them beyond 32767)
 MAC = {1: 21, 2: 22, 3: 23}              # abstract router address -> MAC on the vlan
 NODE_MAC, PROBE_MAC, SADR_MAC, SENDER_MAC = 1, 5, 9, 99
 SN_INV = {v: k for k, v in SN.items()}
